@@ -447,6 +447,38 @@ func (x *extractor) form(e *Entry, v ast.Expr) {
 			e.Bound = boundExact(lit, ts.Sel.Name)
 			return
 		}
+		// constant.BinaryOp(constant.MakeFromLiteral("num", token.INT, 0), token.QUO, constant.MakeFromLiteral("den", token.INT, 0)):
+		// the exact quotient extract emits for a float constant that no finite literal denotes
+		if x.isPkgFunc(a.Fun, "go/constant", "BinaryOp") && len(a.Args) == 3 {
+			op, ok := a.Args[1].(*ast.SelectorExpr)
+			if !ok || op.Sel.Name != "QUO" {
+				return
+			}
+			part := func(v ast.Expr) (string, bool) {
+				c, ok := v.(*ast.CallExpr)
+				if !ok || !x.isPkgFunc(c.Fun, "go/constant", "MakeFromLiteral") || len(c.Args) != 3 {
+					return "", false
+				}
+				ts, ok := c.Args[1].(*ast.SelectorExpr)
+				if !ok || ts.Sel.Name != "INT" {
+					return "", false
+				}
+				return strLit(c.Args[0])
+			}
+			num, ok1 := part(a.Args[0])
+			den, ok2 := part(a.Args[2])
+			if !ok1 || !ok2 {
+				return
+			}
+			nv, dv := constant.MakeFromLiteral(num, token.INT, 0), constant.MakeFromLiteral(den, token.INT, 0)
+			if nv.Kind() != constant.Int || dv.Kind() != constant.Int || constant.Sign(dv) == 0 {
+				return
+			}
+			q := constant.BinaryOp(constant.ToFloat(nv), token.QUO, constant.ToFloat(dv))
+			e.Form, e.Lit, e.Tok = "lit", num+"/"+den, "FLOAT"
+			e.Bound = q.ExactString()
+			return
+		}
 		// (*T)(nil)
 		if p, ok := a.Fun.(*ast.ParenExpr); ok && len(a.Args) == 1 {
 			st, ok := p.X.(*ast.StarExpr)
